@@ -224,6 +224,14 @@ pub fn run(ctx: &'static Ctx) {
             refuse(&s, "non-ascii-dash");
         }
     }
+    // a valid identifier followed or preceded by something: the whole string must be the identifier
+    for extra in ["-", "-0", "-0001", "-00112233", "0", "00", " ", "\0", "\n", "}", "-33db4d5b-1ff7-401c-9657-7441c03dd766"] {
+        for g in [good, bgs[0], bgs[1]] {
+            refuse(&format!("{}{}", g, extra), "suffix");
+            refuse(&format!("{}{}", extra, g), "prefix");
+        }
+    }
+    refuse(&format!("{{{}}}", good), "braces");
     // every placement of exactly four dashes in a 36-character string of hex digits (58 905 strings): only 8-4-4-4-12 is a UUID
     {
         let digits: Vec<u8> = good.bytes().filter(|b| *b != b'-').collect();
